@@ -1509,6 +1509,8 @@ class CxxEvaluator(Evaluator):
             b = self.eval(e["b"], env, this)
             if isinstance(b, It):
                 b = b.deref()
+            if isinstance(b, Ptr) and e.get("arrow") and e["n"] != "":
+                b = b.load()          # p->field on a pointer into an array of structs
             if isinstance(b, (Obj, Struct)):
                 if e["n"] == "":
                     return b
